@@ -232,6 +232,10 @@ func propC20(t *rapid.T) {
 		case "stepped":
 			w.close()
 			return
+		}
+		w.closed = true // disposed of below
+		w.apiForget()
+		switch phase {
 		case "live":
 			// still running (a failure above): stop it without judging
 			guard.Call(20*time.Second, func() { w.env.W.Stop() })
